@@ -5,12 +5,14 @@ import ast
 from collections import namedtuple
 
 from .. import paths, waiters
-from ..core import FUNC, call_attr, calls_in, const, dotted, is_const, norm, text, walk_local
+from ..core import FUNC, call_attr, calls_in, const, dotted, kwarg, is_const, norm, text, walk_local
 
 EXPLANATION = [
+    'C09.listeners: the channel manager subscribes to the host\'s disconnection event with on(), not once(): every lost link, not just the first, triggers the table clean-up.',
     'C09.stale-loopvar: no comprehension or generator expression in bumble.l2cap reads the variable of a `for` loop that has already finished (it would be the last item for every element): table registrations built from a list of channels key each channel by its own identifiers.',
     'C09.cid-domain: every keyed access (subscript, get/pop, membership, set intersection) to a per-connection channel table uses a key of that table\'s numbering: `channels` own-allocated identifiers (find_free_*, channel.source_cid), `le_coc_channels` peer-allocated ones (request.source_cid in a request handler, *.destination_cid); no method replaces a per-connection table as a whole.',
     'C09.identifier-range: interval evaluation of ChannelManager.next_identifier over its paths shows that, for a previous identifier anywhere in 0..255, the identifier returned is in 1..255 and the one stored in 0..255 (induction from the initial 0): it always fits the one-byte field of a signalling frame and is never the invalid 0.',
+    'C09.batch-order: the acceptor of an enhanced credit-based request creates its channels by iterating the request\'s source CID list itself and answers with their CIDs in creation order: the i-th CID of the response belongs to the i-th CID of the request.',
     'C09.allocator-scan: every identifier a find_free_* allocator returns was individually tested `not in` the table it was given (no block allocation from the first free one).',
     'C09.response-echo: both channel classes answer a Disconnection Request with the request\'s own identifier, destination_cid and source_cid; the manager matches the response by the echoed source CID.',
     'C09.symmetric: the set of ChannelManager tables a channel of each class is '
@@ -494,6 +496,30 @@ def signalling_identifier(ctx, rule='C09.identifier-range'):
             f'for a previous identifier in 0..255 the function returns a value in {returned} (stored {stored}): an identifier outside 1..255 does not fit the one-byte field (struct.error in the middle of an open / close after ~255 signalling requests on a link) or is the invalid 0', p.loc(fn))
 
 
+def batch_order(ctx, rule='C09.batch-order'):
+    """An enhanced credit-based request opens several channels at once: the i-th local channel is created for the i-th
+    source CID of the request and the response lists the local CIDs in that order, so the creation loop walks the
+    request's own list (not a set or a sorted copy of it)."""
+    R, p = ctx.r, ctx.p
+    fn = p.find(f'{CM}.on_l2cap_credit_based_connection_request')
+    if fn is None:
+        R.bad(rule, f'{CM}.on_l2cap_credit_based_connection_request', 'anchor missing')
+        return
+    req = fn.args.args[-1].arg
+    loops = [l for l in walk_local(fn) if isinstance(l, ast.For) and any(call_attr(c) == 'LeCreditBasedChannel' for c in calls_in(l))]
+    ok = len(loops) == 1 and norm(loops[0].iter) == f'{req}.source_cid'
+    R.check(ok, rule, f'{CM}.on_l2cap_credit_based_connection_request | creation order', f'channels are created by iterating {req}.source_cid itself',
+            f'the channel-creation loop iterates `{norm(loops[0].iter) if loops else None}`, not the request\'s list: its order is not the order of the request (a set iterates in hash order), so local channels are bound to the wrong peer CIDs while the response lists them in allocation order', p.loc(loops[0]) if loops else p.loc(fn))
+    # the response lists the CIDs of the channels created, in creation order
+    rsp = [c for c in calls_in(fn) if call_attr(c) == 'L2CAP_Credit_Based_Connection_Response' and kwarg(c, 'destination_cid') is not None and not (isinstance(kwarg(c, 'destination_cid'), ast.List) and not kwarg(c, 'destination_cid').elts)]
+    okr = bool(rsp) and all(isinstance(kwarg(c, 'destination_cid'), (ast.ListComp, ast.Name)) for c in rsp)
+    for c in rsp:
+        d = kwarg(c, 'destination_cid')
+        if isinstance(d, ast.ListComp):
+            okr = okr and not any(isinstance(x, ast.Call) and dotted(x.func) in ('sorted', 'set', 'reversed') for x in ast.walk(d))
+    R.check(okr, rule, f'{CM}.on_l2cap_credit_based_connection_request | response order', 'the success response lists the local CIDs of the created channels as they were created', 'the response reorders the created channels', p.loc(fn))
+
+
 def keying(ctx):
     R, p = ctx.r, ctx.p
     rule = 'C09.keying'
@@ -855,10 +881,9 @@ def allocator_scan(ctx):
     R.check(n >= 3, rule, f'{CM} | allocators', f'{n} allocators analysed', f'only {n} allocators found')
 
 
-def response_echo(ctx):
+def response_echo(ctx, rule='C09.response-echo'):
     """A Disconnection Response names the channel exactly as the request did (the requester looks it up by those identifiers)."""
     R, p = ctx.r, ctx.p
-    rule = 'C09.response-echo'
     n = 0
     for cq in (CC, LE):
         fn = p.find(f'{cq}.on_disconnection_request')
@@ -925,13 +950,26 @@ def stale_loopvar_rule(ctx):
     stale_loopvar(ctx, 'C09.stale-loopvar', ['bumble.l2cap'])
 
 
+def listeners_rule(ctx):
+    from .. import generic_rules as g
+    g.persistent_listeners(ctx, 'C09.listeners', ['bumble.l2cap.ChannelManager.host'])
+
+
+def identity_rule(ctx):
+    from ..generic_rules import identity_compare
+    identity_compare(ctx, 'C09.identity', ['bumble.l2cap'])
+
+
 RULES = [
+    ('C09.identity', identity_rule),
+    ('C09.listeners', listeners_rule),
     ('C09.stale-loopvar', stale_loopvar_rule),
     ('C09.close-releases', classic_close_releases),
     ('C09.allocator-scan', allocator_scan),
     ('C09.response-echo', response_echo),
     ('C09.symmetric', symmetric),
     ('C09.keying', keying),
+    ('C09.batch-order', batch_order),
     ('C09.identifier-range', signalling_identifier),
     ('C09.cid-domain', cid_domain),
     ('C09.waiters', l2cap_waiters),
